@@ -173,7 +173,7 @@ func (c *c14) applyFaults(a *answer, allowStructural bool) {
 			if v == nil {
 				continue
 			}
-			raw := rm.sigFault(v, kind)
+			raw := rm.sigFault(v, kind, "")
 			nv := rm.parse(raw)
 			if nv == nil || nv.EventID() != v.EventID() {
 				c.r.Probe("sig_fault_changed_identity")
@@ -582,6 +582,7 @@ func (c *c14) judgeState(op string, a *answer, model *stateVerdict, gotA, gotS [
 	if a.nfaults > 0 {
 		r.Nontriv = true
 	}
+	r.State(fmt.Sprintf("%s faults=%s err=%q dropped=%d ok=%v", op, a.neighbourFault(), model.err, len(model.dropped), err == nil))
 	if !sameRaw(in.auth, keepA) || !sameRaw(in.state, keepS) {
 		r.Violate("C14", op+"_inputs_modified", "inputs", "%s: the response passed in was modified", op)
 	}
@@ -683,6 +684,7 @@ func (c *c14) opSendJoin() {
 		return
 	}
 	r.Logf("  CheckSendJoinResponse -> ok=%v ; model ok=%v (%s)", err == nil, wantOK, why)
+	r.State(fmt.Sprintf("sendjoin faults=%s why=%q dropped=%d ok=%v", a.neighbourFault(), why, len(model.dropped), err == nil))
 	if a.nfaults > 0 {
 		r.Nontriv = true
 	}
